@@ -131,7 +131,8 @@ SCENARIOS = [
     ("same-tuple-creators", "c", 3, 1, "-", ["r:%s/e:0:1" % A, "r:%s/e:0:2" % A, "r:%s/e:0:3" % A]),
     ("colliding-creators", "c", 2, 2, "-", ["r:%s/e:0:1" % X1, "r:%s/e:0:1" % X2, "a:%s:1" % X1]),
     ("colliding-unregister", "c", 2, 2, "r:%s" % X1, ["u:%s" % X1, "r:%s/e:1:1" % X2, "u:%s" % X2]),
-    ("hist-last-slot", "h", 1, 1, "-", ["r:%s/e:0:1" % A, "r:%s/e:0:1" % B, "r:%s/e:0:1" % B]),
+    ("hist-last-slot", "h", 1, 1, "-", ["r:%s/e:0:1" % A, "r:%s/e:0:3" % B, "r:%s/e:0:7" % B]),
+    ("hist-hot-series-sum-and-buckets", "h", 2, 1, "r:%s" % A, ["e:0:0/e:0:3/e:0:7", "e:0:1/e:0:5/e:0:6", "a:%s:9/e:0:2" % A]),
     ("hist-double-unregister", "h", 2, 1, "r:%s/r:%s" % (A, B), ["u:%s" % A, "u:%s/r:%s/r:%s" % (A, C, D)]),
     ("hot-handle-emitters", "c", 2, 1, "r:%s" % A, ["e:0:1/e:0:2/e:0:3", "e:0:1/e:0:2/e:0:3", "e:0:5/a:%s:7" % A]),
     ("two-unregisters-vs-recreate", "c", 2, 1, "r:%s" % A, ["u:%s" % A, "u:%s" % A, "r:%s/e:1:1" % A]),
@@ -170,7 +171,7 @@ def gen_conc_random(rng, rounds, race=False):
         for _ in range(k):
             r = rng.random()
             t = rng.choice(pool)
-            d = 1 if kind == "h" else rng.choice([1, 2, 3])
+            d = rng.choice([0, 1, 3, 7]) if kind == "h" else rng.choice([1, 2, 3])     # histogram: observed value (weight 1)
             if r < 0.45:
                 p.append("r:" + t)
                 ns += 1
@@ -309,11 +310,11 @@ def monitor(cap, obs):
         if k == "S" or re.fullmatch(r"T\d+", k):
             res += v.split(".")
     out = []
-    if any(re.fullmatch(r"o\d+", r) for r in res):
+    if any(re.fullmatch(r"o[-\d/_]+", r) for r in res):
         out.append("orphan")
-    if any(re.fullmatch(r"X\d+", r) for r in res):
+    if any(re.fullmatch(r"X[-\d/_]+", r) for r in res):
         out.append("alias")
-    if any(re.fullmatch(r"O\d+", r) for r in res) or ("reg" in f and f["reg"] not in ("1,1", "0,1")):
+    if any(re.fullmatch(r"O[-\d/_]+", r) for r in res) or ("reg" in f and f["reg"] not in ("1,1", "0,1")):
         out.append("regsplit")      # registrants of one name hold different metric objects
     if "panic" in res:
         out.append("regpanic")
